@@ -141,6 +141,7 @@ Run execute(const model::Opt &o)
     case 2: argv = empty; break;
     case 3: opt.fork = true; argv = nullptr; break;
     case 4: opt.fork = true; break;
+    case 5: opt.fork = true; argv = empty; break;  // fork mode with an argv that is there but empty
     default: break;
   }
   int want_mode[3] = { O_RDONLY, O_WRONLY, O_WRONLY };
@@ -339,6 +340,12 @@ CaseResult run_case(Tape &t, long sweep)
     long idx = (long) t.range(0, kFull - 1);
     int form = t.chance(1, 2) ? (int) t.range(1, kForms) : 0;
     o = cell(idx, form);
+    // (a form outside the enumerated sweep, so that the sweep's numbering stays what the saved cases refer to)
+    if (t.chance(1, 12)) {
+      o.forkargv = 5;
+      form = 100 + o.input;
+      res.cls("fork-with-empty-argv");
+    }
     res.cls("random");
     res.hash = mix((uint64_t) idx, (uint64_t) form);
   }
